@@ -12,388 +12,385 @@ Definition show_fres (r : fres) : string :=
   end.
 Definition check (rs : list rune) : string := digest (show_fres (format_res rs)).
 Definition full (rs : list rune) : string := show_fres (format_res rs).
-Eval vm_compute in ("<<<M266>>>" ++ check (runes_of_ascii "packet metadata { repeat f64 // " ++ [128512]%N ++ runes_of_ascii " emoji
-Foo , repeat
-Logon
-    f32a`
-` , @calculatedFrom( ""1"" ) repeat
-    uint8 // trailing space 
-calculatedFrom `u8 x,`
-, char[]
-    packetx , // packet A { u8 x, }
-@calculatedFrom(
-""abc"" ) Pad
-@lengthOf(msg_type  )`line1
-line2` ,
-@rightPad
-(
-' ' )
-tag`" ++ [233]%N ++ runes_of_ascii "` ,@tag( 10
-    /// triple
-    )u8x
-@calculatedFrom( ""CRC32"" ),match
-// trailing space 
-// trailing space 
-metadata
-as msg_type
-//
-// " ++ [27880; 37322]%N ++ runes_of_ascii "
-{[
-""\n"" //x
-, 0123456789// c
-] : options1
-,
-    ""\n""
-    :
-    float ,},} packet
-// " ++ [128512]%N ++ runes_of_ascii " emoji
-// " ++ [128512]%N ++ runes_of_ascii " emoji
-MetaDataX {string string_ `doc`
-,
-@rightPad
-    (
-    '0' ) zchar[
-// " ++ [128512]%N ++ runes_of_ascii " emoji
-// `tick` ""quote"" 'q'
-00 ]
-zchar `a\`
-,} options {leftPad = 0 float = 4294967296 ;
-}// `tick` ""quote"" 'q'
-root packet body{ @calculatedFrom( ""1"" ) @lengthOf( int ) match float as Z9_  {
-// packet A { u8 x, }
-// trailing space 
-42
-: x
-""packet"" :// `tick` ""quote"" 'q'
-matchKey	, """ ++ [28040; 24687]%N ++ runes_of_ascii """
-/// triple
-// packet A { u8 x, }
-: o ,	255 :	float }
-, @tag( 0123456789 ) match	calculatedFrom as // @lengthOf(
-trueish { [ ""packet"" , ""`tick`"" //x
-,	""" ++ [233]%N ++ runes_of_ascii "t" ++ [233]%N ++ runes_of_ascii """ ] : MetaDataX 4294967296 :trueish
-, 3 :
-// trailing space 
-// packet A { u8 x, }
-i64_ , 0123456789 :
-f32a , [ 7, //	t
-10	,	""CRC32"" ,	""x y"" , ""\n""
-    // `tick` ""quote"" 'q'
-    , ""CRC32""
-    , ""`tick`""
-    ]// `tick` ""quote"" 'q'
-: body , }, char[ 1//
-]Foo // " ++ [128512]%N ++ runes_of_ascii " emoji
-, @rightPad( ' ' ) @calculatedFrom( // " ++ [27880; 37322]%N ++ runes_of_ascii "
-""a	b""
-) repeat string_ { repeat Logon // @lengthOf(
-,	Z9_	i8i8 ,match Z9_ as
-    A {[ 42
-    ] :Logon , [ ""CRC32"" , 1 , ""a\""b"" , 4294967296 , 0, ""\" ++ [233]%N ++ runes_of_ascii """ ] : roots ""a\""b"" : MetaDataX , 255
-: _x
-,
-    65535
-    :
-    rootA , }	,match _x as Foo {[ 255
-    , """ ++ [28040; 24687]%N ++ runes_of_ascii """ ,// packet A { u8 x, }
-""CRC32"" ,
-    // c
-    """ ++ [233]%N ++ runes_of_ascii "t" ++ [233]%N ++ runes_of_ascii """ ,
-    ""abc"" ] : len""a\\""
-: Pad  0
-: falsey,3 :	u128
-    ,
-} ,// a // b
-} , repeat // packet A { u8 x, }
-options1 int `{ , }`
-// packet A { u8 x, }
-//
-,
-}")).
-Eval vm_compute in ("<<<M1710>>>" ++ check (runes_of_ascii "// top
-options {
-    // c1
-    StringPrefixLenType = u16;// c5
-    ArrayPrefixLenType = u32;
-    // c9
-    FixedStringPadFromLeft = true;
-    FixedStringPadChar = '0';
-    // c17
-}
-
-packet Cancel {
-    // c21a
-    // c21b
-}// c22a
-
-// c22b
-packet Party {
-}
-
-// c26
-packet Logon {
-}
-
-packet Ack {
-    // c33a
-    // c33b
-}// c34
-
-packet Logout {
-    // c37a
-    // c37b
-    repeat InSym87 {
-        // c40a
-        // c40b
-        InClordid94 {
-            // c42
-            string clOrdID,
-            // c45
+Eval vm_compute in ("<<<M1959>>>" ++ check (runes_of_ascii "packet falsey {
+    char[7] Foo @calculatedFrom(""CRC32""),
+    @tag(10)
+    u8 Packet `" ++ [233]%N ++ runes_of_ascii "`,
+    repeat stringy,
+    @lengthOf(float)
+    tag {
+        repeat u8x {
+            int16 charz @lengthOf(trueish),//	t
+            repeat string calculatedFrom,
+            charz @calculatedFrom(""a\""b"") `line1
+            line2`,
         },
-        // c47
-        string Px,
-        i16 Qty,// c53
-        repeat InCount71 {
-            repeat Cancel,
-            // c59
-            uint16 Tail,
-            // c62
-            char[2] x,// c67a
-            // c67b
-            repeat string Ref,// c71
+        u64 MetaDataX @calculatedFrom(""" ++ [128512]%N ++ runes_of_ascii """) `" ++ [233]%N ++ runes_of_ascii "`,
+        rootA {
+            repeat u64 BodyLength `" ++ [233]%N ++ runes_of_ascii "`,
+            pack @calculatedFrom(""{,}"") `" ++ [28040; 24687; 31867; 22411]%N ++ runes_of_ascii "`,
+            repeat x charz,
         },
-        Cancel,// c75a
-        // c75b
+        // a // b
+        char[] packetx,
+    },// `tick` ""quote"" 'q'
+    calculatedFrom,
+    u x_y_z,
+    repeat int i64_,
+    @leftPad(' ')
+    u32 T @calculatedFrom(""{,}""),
+    repeat metadata,
+}
+
+root packet chars {
+    char[65535] pack @lengthOf(As) `tab	here`,
+    char[255] msg_type `// not a comment`,
+    @calculatedFrom(""// no comment"")
+    @tag(0)
+    @tag(10)
+    repeat Header {
+        char[] i64_,
+        repeat T ``,
+        match uint8x as i64_ {
+            00 : _x,
+            65535 : Z9_,
+            ""1"" : u8x,
+            007 : Z9_,
+            255 : matchKey,
+            ""1"" : crc,
+        },
+    },
+    @calculatedFrom(""packet"")
+    match int as x_y_z {
+        0123456789 : Logon,
+        //	t
+        [0123456789, ""it's""] : int,
+        [""a	b"", ""CRC32"", 0, 4294967296, """"] : pack,
+        0 : u,
+    },
+    match string_ as int {
+        0 : repeatCount,
+        [""abc""] : float,
+        007 : msg_type,
+        [""a\""b""] : charz,
+    },
+    i16 MetaDataX `say ""hi""`,
+    repeat u `tab	here`,
+    repeat falsey {
+        repeat i8 lengthOf `a\`,
+        repeatCount @lengthOf(o) `{ , }`,
     },
 }
 
-// c78
-root packet Order {
-    // c82
-    repeat string tag7,
-    @leftPad(' ')
-    // c90
-    char[3] Px,// c95a
-    // c95b
-    u8 Qty,
-    // c98
-    match Qty as Body {
-        [
-            28,
-            62
-        ] : Logon,
-        // c111a
-        // c111b
-        148 : Ack,
-        // c115a
-        // c115b
-        88 : Party,
-        // c119
-        184 : Cancel,
-        // c123
-    },// c125a
-    // c125b
-    u16 Note @calculatedFrom(""CRC32""),// c131
-}")).
-Eval vm_compute in ("<<<M1770>>>" ++ check (runes_of_ascii "
-packet
-MetaDataX{
-    metadata
-trueish`" ++ [233]%N ++ runes_of_ascii "` 
-    //x
-      //x
-,	// trailing space 
-  @calculatedFrom( ""`tick`"")
-	uint8x
-// c
-	@calculatedFrom(
-    """ ++ [128512]%N ++ runes_of_ascii """
-    )`{ , }` , 
-@calculatedFrom(
-    ""a\""b""
-)	// packet A { u8 x, }
-
-match
-	Packet  as
-	body {  3
-:
-    repeatCount , ""x y"" 
-    /// triple
-  :lengthOf // `tick` ""quote"" 'q'
-	  4294967296 : 
-packetx	, [  ""abc""
-    ,  ""// no comment""
-    ,
-    ""abc""
-	, 
-""\n"" 	 //	t
-    ,
-    ""1"" 
-]
-    :
-    u128 [
-
-00 
-,
-65535 
-,	""x y""
-    ,
-	""{,}""
-	]: calculatedFrom  ,	7
-	:i8i8
-	}
-    , u8x
-, match
-
-    int 
-as
-matchKey {[
-1	,
-""CRC32""
-    ]
-// trailing space 
-  : 	 // @lengthOf(
-
-  asx
-,	} ,
-	@lengthOf(  // " ++ [128512]%N ++ runes_of_ascii " emoji
-    	a1  )
-    string
-x`it's`,repeat  // @lengthOf(
-    char matchKey 
-, 
-	// a // b
-      @leftPad // trailing space 
-()
-    @rightPad
-( )
-	match	metadata
-    as Packet  {
-    [
-65535  ]
-	:
-
-Header  ,
-}
-
-,@tag(
-
-255 
-) 
-zchar[3]
-crc 
-`u8 x,` , 
-}
-
-MetaData
-rootA // trailing space 
-{ i8i8
-Pad,
-    int8  packetx  `{ , }`,
-	int8	stringy ,
-    // `tick` ""quote"" 'q'
-    	body _x , body
-
-o
-    , 
-}
-")).
-Eval vm_compute in ("<<<M289>>>" ++ check (runes_of_ascii "options  {
-// " ++ [27880; 37322]%N ++ runes_of_ascii "
-//x
-float // packet A { u8 x, }
-=char[]
-    // @lengthOf(
-    ; Header = false
-//
-/// triple
-}
-    // `tick` ""quote"" 'q'
-    options {	x =char[] ; }	MetaData i64_{f64 As
-    /// triple
-    `
-` , repeatCount MetaDataX
-// `tick` ""quote"" 'q'
-// `tick` ""quote"" 'q'
-,
-repeatCount u128 //x
-,	metadata msg_type `tab	here`
-    ,
-    }
-packet  options1
-    {
-    repeat char[0123456789] T  , @tag(  65535
-)
-    //x
-    @calculatedFrom( ""CRC32""
-) @calculatedFrom( """ ++ [28040; 24687]%N ++ runes_of_ascii """ ) repeat string
-Logon
-    ,	@lengthOf( u128 )
-stringy  {string_ x ,
-} , @tag( // " ++ [27880; 37322]%N ++ runes_of_ascii "
-10) u64 tag @lengthOf(roots), Foo	@lengthOf(
-Foo
-)`// not a comment` ,
-string pack `a\` , match A
-    as charz {
-[ 3 ] : x ,} ,@tag(42 ) f64 msg_type @lengthOf(
-trueish )
-,match	pack /// triple
-as
-options1 { """ ++ [28040; 24687]%N ++ runes_of_ascii """ : // packet A { u8 x, }
-string_ ,	[ 65535, 7 ,
-""a\""b""
-    , 7]//	t
-: f32a 4294967296: o ,  }	,
-    char[] falsey ,
-} // " ++ [128512]%N ++ runes_of_ascii " emoji")).
-Eval vm_compute in ("<<<M168>>>" ++ check (runes_of_ascii "options
-//x
-// @lengthOf(
-{
-    Foo =""// no comment""
-/// triple
-//	t
+packet rootA {
+    calculatedFrom @calculatedFrom(""x y""),
+    char Pad @calculatedFrom(""a\""b"") `" ++ [233]%N ++ runes_of_ascii "`,
+    @leftPad('\x00')
+    repeat float64 tag,
+    // " ++ [27880; 37322]%N ++ runes_of_ascii "
+    @calculatedFrom(""1"")
+    repeat Foo,
+}// " ++ [27880; 37322]%N)).
+Eval vm_compute in ("<<<M1347>>>" ++ check (runes_of_ascii "// top
+options // c0a
+  // c0b
+{ // c1
+ArrayPrefixLenType
+    // c2
+=
+    // c3
+u64 // c4a
+  // c4b
+; // c5
+FixedStringPadFromLeft
+    // c6
+= true
+    // c8
+; // c9a
+  // c9b
+FixedStringPadChar // c10
+=
+    // c11
+'0'
+    // c12
 ; }
-packet float {
-} packet
-    len { @lengthOf(
-    _x ) stringy{
-    metadata	@calculatedFrom( ""a\\"" )
-, } ,
-//x
-//
-}	packet asx {
-@tag( 0 ) repeat float64
-A`say ""hi""` ,
-//
-// trailing space 
-i16 int
-    `say ""hi""` , @calculatedFrom( """ ++ [128512]%N ++ runes_of_ascii """) lengthOf Header `two words` ,
-f32a
-    zchar , @rightPad
-    ( '0'
-)repeat string_
-    // packet A { u8 x, }
-    chars ``  , @tag( 4294967296)
-    @calculatedFrom( ""a	b"" )repeat
-    msg_type,  @leftPad( ) repeat f64 _x ,	repeat As { Logon @lengthOf(
-calculatedFrom) `two words` ,
-    repeat u64 o `u8 x,`	, } , @calculatedFrom(
-""packet"" ) repeat // @lengthOf(
-uint8 u ,} packet
-uint8x{@leftPad ( '0'
-    )
+    // c14
+packet
+    // c15
+Quote // c16
+{ // c17a
+  // c17b
+} // c18a
+  // c18b
+packet // c19
+Ack // c20a
+  // c20b
+{ repeat // c22
+InNote66 { // c24a
+  // c24b
+u8 // c25a
+  // c25b
+pad0 // c26
+,
+    // c27
+} // c28
+, // c29
+} // c30
+packet
+    // c31
+Reject // c32a
+  // c32b
+{
+    // c33
+} // c34a
+  // c34b
+root // c35
+packet // c36a
+  // c36b
+Order
+    // c37
+{ // c38
+Quote // c39
+, repeat // c41
+Reject , // c43a
+  // c43b
+string
+    // c44
+venue
+    // c45
+, string
+    // c47
+seqNo // c48a
+  // c48b
+, // c49
+uint32
+    // c50
+Ref // c51a
+  // c51b
+, // c52a
+  // c52b
+u16 // c53a
+  // c53b
+lastPx
+    // c54
+,
+    // c55
+u32 // c56a
+  // c56b
+clOrdID // c57
+@lengthOf(
+    // c58
+Body ) // c60
+, // c61a
+  // c61b
+match
+    // c62
+lastPx // c63
+as // c64a
+  // c64b
+Body // c65a
+  // c65b
+{ 190 // c67
+: // c68a
+  // c68b
+Reject // c69
+,
+    // c70
+186 : // c72a
+  // c72b
+Quote ,
+    // c74
+22 :
+    // c76
+Ack
+    // c77
+, // c78
+} // c79
+,
+    // c80
+u16 // c81a
+  // c81b
+Flags // c82
+@calculatedFrom( // c83a
+  // c83b
+""CRC32"" ) , // c86
+} // c87a
+  // c87b
+")).
+Eval vm_compute in ("<<<M96>>>" ++ check (runes_of_ascii "packet  int//x
+{
+// " ++ [128512]%N ++ runes_of_ascii " emoji
 //	t
-//x
-zchar[
+} packet Z9_ {
+    @tag(  1
+) @tag(00 ) zchar[ 0 ] trueish `// not a comment`
+, Header @lengthOf(
+repeatCount ) // `tick` ""quote"" 'q'
+,charz float`crlf
+line` , match
+lengthOf as	u
+    // c
+    { // `tick` ""quote"" 'q'
+65535  :
+    msg_type
+,""1""
+:
+    // " ++ [27880; 37322]%N ++ runes_of_ascii "
+    x
+    ,
+""a\""b"" : packetx , 10:
+msg_type """ ++ [128512]%N ++ runes_of_ascii """ :
+calculatedFrom [
+7 ,0	]
+    // c
+    : // " ++ [128512]%N ++ runes_of_ascii " emoji
+u128 , }, string i8i8`{ , }` , } packet// @lengthOf(
+a1{ } root packet roots {
+    @lengthOf(
+    // " ++ [128512]%N ++ runes_of_ascii " emoji
+    u )
+f64 Logon,@lengthOf(
+_x	) As
+    @calculatedFrom(""\n"" ) , @leftPad
 // packet A { u8 x, }
 // " ++ [27880; 37322]%N ++ runes_of_ascii "
-255
-    ]	metadata `a\`
-    ,//
-} // `tick` ""quote"" 'q'")).
-Eval vm_compute in ("<<<M1946>>>" ++ check (runes_of_ascii "packet float {
+(  )repeatCount
+@calculatedFrom( ""{,}""
+)
+`tab	here`
+    // trailing space 
+    , @tag(
+    //x
+    42)char[
+1
+    ]T
+    `a\`
+,int64
+_x// packet A { u8 x, }
+, zchar[	4294967296
+    ]
+i64_ @lengthOf(  tag
+    //	t
+    )
+    `
+`
+    , @calculatedFrom(""a\""b""
+    //x
+    ) u8 len`it's` , @leftPad
+(
+) metadata@lengthOf(tag
+    ) `{ , }` ,@leftPad// packet A { u8 x, }
+( ' '
+) MetaDataX  {
+    repeat char[]	rootA
+    ,
+    // c
+    } ,i8 body ,}
+")).
+Eval vm_compute in ("<<<M1878>>>" ++ check (runes_of_ascii "packet i8i8 {
+    @tag(0)
+    int32 leftPad `it's`,
+    repeat char[] Header `crlf
+    line`,
+    @calculatedFrom(""\" ++ [233]%N ++ runes_of_ascii """)
+    /// triple
+    repeat uint8 float,
+    @rightPad('\x00')
+    char[] zchar @lengthOf(leftPad) `
+    `,
+    Z9_,
+    @lengthOf(x)
+    match As as tag {
+        ""a	b"" : string_,
+        [
+            10, 7, ""1"", 255, 3,
+            42, 0123456789, """ ++ [128512]%N ++ runes_of_ascii """
+        ] : x_y_z,
+        ""CRC32"" : Z9_,
+        00 : Logon,
+    },
+    @tag(007)
+    o {
+        char Packet @lengthOf(repeatCount),
+    },
+    @lengthOf(pack)
+    float64 rootA `two words`,
+    repeat char[] BodyLength,
+}
+
+packet Z9_ {
+    match As as a1 {
+        //
+        0 : trueish,
+    },
+    /// triple
+    // " ++ [27880; 37322]%N ++ runes_of_ascii "
+}
+
+root packet u8x {
+    /// triple
+    // " ++ [128512]%N ++ runes_of_ascii " emoji
+    repeat string Logon `tab	here`,// " ++ [128512]%N ++ runes_of_ascii " emoji
+}
+
+options {
+    _x = ""packet"";
+    f32a = 007
+}
+
+packet i8i8 {
+    @calculatedFrom(""CRC32"")
+    A @lengthOf(a1),
+}")).
+Eval vm_compute in ("<<<M135>>>" ++ check (runes_of_ascii "
+packet crc
+    {@tag(	0)  @calculatedFrom(
+    ""{,}""	) @rightPad ( ' ')	repeat uint8 lengthOf // a // b
+,
+    char[	42 ] float ,
+    repeat a1 // packet A { u8 x, }
+{ match
+x_y_z as charz
+    { [
+00
+, 4294967296,
+//x
+// a // b
+""it's"",""" ++ [28040; 24687]%N ++ runes_of_ascii """ ] ://x
+zchar,	[
+    ""packet"" ,// c
+""x y"",
+""it's"" ,""abc"" ,
+""it's""
+    ] :string_ , 0 : Z9_
+}
+    // `tick` ""quote"" 'q'
+    , // `tick` ""quote"" 'q'
+} ,match u8x
+as//x
+pack {[ 0123456789
+, ""x y""
+] : // c
+trueish /// triple
+, }	,
+    @calculatedFrom( ""a\""b""
+    // c
+    ) repeat string_ `a\`,
+packetx@calculatedFrom(
+""`tick`"" ) , int64 chars `say ""hi""` , @calculatedFrom(
+""a	b"" )@leftPad (  '\x00'
+) @lengthOf(
+    repeatCount)u64
+    falsey@calculatedFrom( ""\" ++ [233]%N ++ runes_of_ascii """
+    )
+,
+repeat Header { repeat
+    metadata , char[] chars`" ++ [28040; 24687; 31867; 22411]%N ++ runes_of_ascii "` , zchar[ 10] x_y_z `a\` ,	},
+// trailing space 
+// c
+}
+")).
+Eval vm_compute in ("<<<M1944>>>" ++ check (runes_of_ascii "packet float {
     char[] u8x @lengthOf(roots),
 }
 
@@ -434,673 +431,666 @@ root packet pack {
     // " ++ [27880; 37322]%N ++ runes_of_ascii "
     // trailing space 
 }")).
-Eval vm_compute in ("<<<M1424>>>" ++ check (runes_of_ascii "  // top
-    	options// c0
-      { // c1a
-  // c1b
-    zchar// c2
-	=	// c3a
-    // c3b
-	true	// c4
-		; Pad  // c6a
-  	// c6b
-
-= 
-  // c7
-
-  char[00// c9a
-// c9b
-	]
-        // c10
-	a1	=	// c12a
-  // c12b
-	  uint32// c13a
-		// c13b
-    	BodyLength
-	=
-true 	 // c16a
-
-	// c16b
-; 
-// c17
-
-}root	// c19
-    packet 	 // c20
-	T	// c21a
-    	// c21b
-	{ 
-    // c22
-@lengthOf(  // c23a
-    // c23b
-	  repeatCount
-    ) @tag(// c26a
-
-// c26b
-
-	1 
-  // c27
-
-  ) 	 // c28a
-  // c28b
-@calculatedFrom(	// c29
-  ""a	b""	// c30a
-  // c30b
-)	// c31a
-	// c31b
-	string// c32
-  	stringy @calculatedFrom( ""\n""  )  // c36
-
-`u8 x,`  // c37a
-    // c37b
-    	,// c38
-
-	}// c39")).
-Eval vm_compute in ("<<<M1470>>>" ++ check (runes_of_ascii "  packet float  
-      // c1
-
-	{	// c2
-@rightPad 	 // c3a
-	// c3b
-      ( 	 // c4a
-// c4b
-    )// c5a
-  	// c5b
-rootA  // c6
-
-@lengthOf(  // c7a
-// c7b
-	trueish  // c8
-) 
-  // c9
-  , 
-        // c10
-stringy  // c11a
-    // c11b
-  @lengthOf( 	 // c12a
-
-  // c12b
-      matchKey ) 
-	    // c14
-    	,// c15a
-  // c15b
-	char[ 4294967296 ] 
-	    // c18
-pack@lengthOf(
-        // c20
-    uint8x
-	// c21
-
-  ) 	 // c22a
-  // c22b
-  ,
-// c23
-    } // c24
-  root// c25
-  	packet
-	trueish
-{ 
-	    // c28
-    	repeat
-    uint64
-
-// c30
-	u128 
-// c31
-`line1
-line2`// c32
-
-, 
-
-// c33
-  } 
-
-// c34
-")).
-Eval vm_compute in ("<<<M64>>>" ++ check (runes_of_ascii "
-MetaData //	t
-body { T
-    calculatedFrom, string f32a `line1
-line2`, leftPad BodyLength
-`tab	here` ,
-}options {
-}
-MetaData
-    options1	{
-char[ 3 ] MetaDataX
-// " ++ [128512]%N ++ runes_of_ascii " emoji
-/// triple
-`" ++ [28040; 24687; 31867; 22411]%N ++ runes_of_ascii "` ,  BodyLength x	`
-`,u16 tag	`say ""hi""`, u8
-float ,float32 As `
-`
-    ,
-    i8i8 Z9_ `
-`, } packet u { @tag( 42
-) options1 // c
-o `crlf
-line` ,@calculatedFrom( ""`tick`""
-// packet A { u8 x, }
+Eval vm_compute in ("<<<M216>>>" ++ check (runes_of_ascii "// " ++ [27880; 37322]%N ++ runes_of_ascii "
+packet chars {match
+charz
+as
+    // trailing space 
+    A // trailing space 
+{0123456789: rootA ,
+    42
+:
+    x , ""1"" :Logon , 7 :u , ""\n"" : packetx , }, char[]MetaDataX
+@calculatedFrom(""""
+) `" ++ [233]%N ++ runes_of_ascii "`
+    // trailing space 
+    ,	@leftPad( ' ' )  char[] Foo,
+    crc , f64 string_ , // " ++ [128512]%N ++ runes_of_ascii " emoji
+char[]
+packetx,i64 u8x@lengthOf(  stringy ) `// not a comment`, repeat zchar {
+repeat
+A _x , lengthOf	@lengthOf( u8x
+) ,	match A as matchKey { 3 :Z9_ , ""// no comment"": As 00 //x
+:
+i64_ ,
 // a // b
-) repeat
-    char[]	a1
-    //x
-    ,	} options
-    { uint8x=
-true
-    A
-= // `tick` ""quote"" 'q'
-7 ; // packet A { u8 x, }
-len=	""" ++ [128512]%N ++ runes_of_ascii """
-    }")).
-Eval vm_compute in ("<<<M1871>>>" ++ check (runes_of_ascii "
+// " ++ [128512]%N ++ runes_of_ascii " emoji
+""a\\""  :i64_ , [ ""`tick`""/// triple
+] : T ,
+    }
+,
+// a // b
+// packet A { u8 x, }
+uint32 T
+`" ++ [28040; 24687; 31867; 22411]%N ++ runes_of_ascii "`
+    , }
+    , uint64
+    /// triple
+    charz
+, }")).
+Eval vm_compute in ("<<<M1466>>>" ++ check (runes_of_ascii "packet BodyLength {
+    @rightPad('\x00')
+    u8x,
+    @tag(007)
+    @calculatedFrom(""packet"")
+    repeat uint8x x_y_z,
+}
 
-  // top
+MetaData A {
+    // packet A { u8 x, }
+    Z9_ f32a,
+    zchar[255] msg_type `say ""hi""`,
+    char[1] Logon `tab	here`,//
+}
 
-  MetaData
-	// c0
+packet uint8x {
+    @calculatedFrom(""" ++ [28040; 24687]%N ++ runes_of_ascii """)
+    @tag(65535)
+    u32 int @lengthOf(u8x) `say ""hi""`,
+    @leftPad(' ')
+    stringy {
+        string_ A,
+        char[4294967296] i8i8 `" ++ [233]%N ++ runes_of_ascii "`,
+        char[] Logon,
+        string x_y_z @lengthOf(Packet),
+    },
+    zchar[4294967296] int `{ , }`,
+}
 
-uint8x // c1
-	  {char[] 
-
-// c3
-
-  f32a// c4a
-	// c4b
-  `// not a comment`  
-      // c5
-,// c6a
-  // c6b
-  float32 // c7
-
-  roots 
-	// c8
-	, 	 // c9
-  	char[ // c10a
-
-// c10b
-  	7// c11
-  ]// c12
-
-u8x  // c13
-	, 	 // c14a
-  // c14b
-  zchar[
-	    // c15
-    10 
-	// c16
-  ]  // c17
-
-f32a 	 // c18
-
-	,	// c19a
-		// c19b
-      u64
-	// c20
-	pack 	 // c21a
-  // c21b
-	,
-
-u16  
-  // c23
-
-	pack  // c24a
-	// c24b
-  ,
-    // c25
-
-	}
-    // c26")).
-Eval vm_compute in ("<<<M1113>>>" ++ check (runes_of_ascii "// top
-packet // c0
-float // c1
-{ // c2
-@rightPad // c3
-( // c4
-) // c5
-rootA // c6
-@lengthOf( // c7
-trueish // c8
-) // c9
-, // c10
-stringy // c11
-@lengthOf( // c12
-matchKey // c13
-) // c14
-, // c15
-char[ // c16
-4294967296 // c17
-] // c18
-pack // c19
-@lengthOf( // c20
-uint8x // c21
-) // c22
-, // c23
-} // c24
-root // c25
-packet // c26
-trueish // c27
-{ // c28
-repeat // c29
-uint64 // c30
-u128 // c31
-`line1
-line2` // c32
-, // c33
-} // c34
+// trailing space 
+// " ++ [27880; 37322]%N ++ runes_of_ascii "
+packet u8x {
+}
+// a // b")).
+Eval vm_compute in ("<<<M296>>>" ++ check (runes_of_ascii "MetaData u128
+{  zchar[ 3 ] matchKey	`crlf
+line` //
+, } // packet A { u8 x, }
+options
+{ //x
+} root	packet rootA
+    { @calculatedFrom(
+    ""{,}"" ) repeat u16 len ,repeat body,i8i8 @lengthOf( packetx),metadata int `line1
+line2` ,  uint8x `two words` // c
+, int16 //
+x_y_z
+, repeatCount , Logon {  repeat// trailing space 
+i8 Packet `line1
+line2`
+, } ,}
+options
+{// " ++ [128512]%N ++ runes_of_ascii " emoji
+lengthOf
+//
+// trailing space 
+= ' ' ;
+i64_ = ""{,}"" ; msg_type
+= '0'
+; u=
+// packet A { u8 x, }
+// " ++ [27880; 37322]%N ++ runes_of_ascii "
+i32;_x = ""abc""
+    // packet A { u8 x, }
+    ; }
 ")).
-Eval vm_compute in ("<<<M1598>>>" ++ check (runes_of_ascii "options {
-    LittleEndian = false;
-    StringPrefixLenType = u8;
-    ArrayPrefixLenType = u64;
+Eval vm_compute in ("<<<M1472>>>" ++ check (runes_of_ascii "// top
+packet MDSnapshotZZ {
+    // c2
+    u8 a,// c5a
+    // c5b
+}// c6
+
+packet OrderACK {
+    // c9a
+    // c9b
+    u16 b,
+    // c12
+}// c13a
+
+// c13b
+packet HTTPServerInfo {
+    // c16
+    string s,
+    // c19
+}
+
+// c20
+root packet FIXMsg {
+    u8 KType,// c27a
+    // c27b
+    MDSnapshotZZ,// c29a
+    // c29b
+    repeat OrderACK,// c32a
+    // c32b
+    match KType as Body {
+        // c37
+        1 : HTTPServerInfo,
+        2 : OrderACK,
+    },
+    // c47
+}// c48a
+// c48b")).
+Eval vm_compute in ("<<<M1372>>>" ++ check (runes_of_ascii "options {
+    LittleEndian = true;
+    StringPrefixLenType = u64;
+    ArrayPrefixLenType = u16;
     FixedStringPadFromLeft = false;
     FixedStringPadChar = ' ';
 }
-
-packet Reject {
-    repeat char[4] seqNo,
-    string Px,
+packet Logon {
+    zchar[5] Side2,
 }
-
-root packet Trade {
-    @rightPad('0')
-    char[2] msgKind,
-    repeat f64 price,
-    InAcct79 {
-        repeat Reject,
-        zchar[7] OrderId,
+root packet Logout {
+    repeat i64 Tail,
+    Logon,
+    repeat i16 OrderId,
+    char[] venue,
+    uint64 x,
+    repeat i16 count,
+    u8 Flags,
+    match Flags as Body {
+        25 : Logon,
     },
-    Reject,
-}")).
-Eval vm_compute in ("<<<M299>>>" ++ check (runes_of_ascii "// packet A { u8 x, }
-MetaData roots{ char[ 00]lengthOf
-``  , As stringy, x	calculatedFrom ,} packet i8i8	{
-crc `crlf
-line` , @rightPad// a // b
-( )zchar[ 42] falsey // trailing space 
-,
-    /// triple
-    @tag( 42 ) u32	leftPad  , @tag( 42 ) a1@lengthOf( Z9_ ) , match leftPad as crc{ [""a\""b"" , 1
-, 255
-]:	trueish ,3
-: float ,
-0 :lengthOf
-    ,
-} ,}")).
-Eval vm_compute in ("<<<M368>>>" ++ check (runes_of_ascii "MetaData T
-    {
-uint8
-float ,
-repeatCount x ,	char[ 10  ] asx /// triple
-, char[ 00]
-metadata
-    `" ++ [233]%N ++ runes_of_ascii "` ,u8x asx//	t
-, } MetaData
-    trueish {	charz	string_ `crlf
-line`,  zchar[ 42 ]	_x
-//
-// `tick` ""quote"" 'q'
-, }packet o { char[]u8x
-    @calculatedFrom(""abc""  ) , } options{ x
-=
-    255 ; u // " ++ [27880; 37322]%N ++ runes_of_ascii "
-= '0'	}
-")).
-Eval vm_compute in ("<<<M130>>>" ++ check (runes_of_ascii "packet zchar { @lengthOf( a1
-// " ++ [128512]%N ++ runes_of_ascii " emoji
-//	t
-) i64_ @lengthOf( Header )
-`" ++ [28040; 24687; 31867; 22411]%N ++ runes_of_ascii "`, charz`" ++ [233]%N ++ runes_of_ascii "` , char[007] i64_ , tag  { u16  matchKey // " ++ [27880; 37322]%N ++ runes_of_ascii "
-,match Pad as lengthOf { [""CRC32"" ,	""abc""
-] : Packet
-,	}
-, }
-    , } MetaData body {char[
-    10 ]u128
-    `doc`
-    ,
-/// triple
-//x
-} //x")).
-Eval vm_compute in ("<<<M1624>>>" ++ check (runes_of_ascii "root packet i8i8 {
-    @tag(4294967296)
-    // packet A { u8 x, }
-    Header calculatedFrom `
-        `,
-    @tag(4294967296)
-    @rightPad(' ')
-    @lengthOf(float)
-    options1 zchar `" ++ [233]%N ++ runes_of_ascii "`,
+    u16 Qty @calculatedFrom(""CRC32""),
 }
-
-root packet x {
-    repeat zchar[10] x `u8 x,`,
-}")).
-Eval vm_compute in ("<<<M1318>>>" ++ check (runes_of_ascii "packet FooBar // c1
-{ u8 a ,
-    // c5
-} // c6
-packet foo_bar // c8a
-  // c8b
+")).
+Eval vm_compute in ("<<<M220>>>" ++ check (runes_of_ascii "root
+    packet string_{
+//	t
+//x
+i16 o /// triple
+,
+    @tag( 4294967296
+)
+repeat char o ,Foo {match MetaDataX // trailing space 
+as leftPad
+    { 0123456789 : calculatedFrom ,
+[ 0 ]
+: u128}
+, repeat
+u
+// `tick` ""quote"" 'q'
+// @lengthOf(
 {
-    // c9
-u16
-    // c10
-b , // c12a
-  // c12b
-} // c13
-root // c14
-packet R { // c17a
-  // c17b
-FooBar ,
-    // c19
-foo_bar // c20
-, } ")).
-Eval vm_compute in ("<<<M1890>>>" ++ check (runes_of_ascii "
+    zchar[65535]body@lengthOf( float  )
+,o , asx @calculatedFrom( ""{,}"" ) `it's` // `tick` ""quote"" 'q'
+,}// `tick` ""quote"" 'q'
+,
+} ,  }
+")).
+Eval vm_compute in ("<<<M1805>>>" ++ check (runes_of_ascii "
+options
+	{	LittleEndian
+=
+true
+    ;
 
-  root
+    } packet
 
-packet
-Frame{	u8 K	, 
-Logon
-first ,	match
-	K
-as 
-Body	{
-1 :
-Logon
+    Logon 
+{  u8
+
+    x
     ,
-
-    2
-: 
-Logout
-
-    , }  ,
-
-} packet 
-Logon
-{
-	string
-user,}packet Logout {u16 reason ,
     }
 
-")).
-Eval vm_compute in ("<<<M1776>>>" ++ check (runes_of_ascii "MetaData falsey  {
-o
-i8i8
+    packet 
+Logout  {	u16	reason
+	, }  root
+packet
+
+Frame{
+u64	Kind
+    ,
+    u64
+Kind2 ,
+
+match Kind
+as
+Body {
+1
+    :
+	Logon 
 ,
 
-char[]
+[  2
+,
+3  ,
+    4  ] :
 
-    pack
-    ,float32
+Logout
+, 100 :
 
-    lengthOf
+Logon
+    ,
 
-    ,	len //x
-    	BodyLength
+} , match
+
+    Kind2 as Trailer 
+{
+	0 :Logout
+,}
+, } ")).
+Eval vm_compute in ("<<<M1848>>>" ++ check (runes_of_ascii "packet A {
+    u8 a,
+}
+
+packet B {
+    u16 b,
+}
+
+packet C {
+    u32 c,
+}
+
+root packet M {
+    u16 Kc,
+    u16 Kb,
+    u16 Ka,
+    match Kc as X {
+        9 : A,
+        10 : B,
+    },
+    match Kb as Y {
+        2 : C,
+        1 : A,
+    },
+    match Ka as Z {
+        1 : B,
+    },
+    A,
+    B,
+    C,
+}")).
+Eval vm_compute in ("<<<M94>>>" ++ check (runes_of_ascii "MetaData chars{ uint64	A, msg_type asx
+    // c
+    , Z9_  a1,
+    stringy
+    i64_ //
+`doc` , }packet
+/// triple
+// a // b
+x_y_z {	} options {
+float // c
+=float32 rootA= false ;
+repeatCount// c
+=  char[ 10 ]
+; }	packet Z9_{zchar[007 ]
+    //	t
+    charz // c
+,
+} //x")).
+Eval vm_compute in ("<<<M1306>>>" ++ check (runes_of_ascii "// top
+packet // c0a
+  // c0b
+orderItem // c1a
+  // c1b
+{ u8 // c3
+a // c4
+, // c5a
+  // c5b
+}
+    // c6
+root packet // c8a
+  // c8b
+newOrder // c9a
+  // c9b
+{ orderItem // c11
+, u8
+    // c13
+x // c14a
+  // c14b
+,
+    // c15
+} // c16
+")).
+Eval vm_compute in ("<<<M1434>>>" ++ check (runes_of_ascii "packet A {
+    match k as n {
+        ""x\
+                y"" : B,
+        [""x\
+                y"", 1] : C,
+        [
+            1, 2, 3, 4, 5,
+            ""x\
+                        y""
+        ] : D,
+    },
+}")).
+Eval vm_compute in ("<<<M357>>>" ++ check (runes_of_ascii "MetaData x_y_z
+{
+lengthOf // packet A { u8 x, }
+rootA , MetaDataX// " ++ [128512]%N ++ runes_of_ascii " emoji
+_x , char[ 4294967296 ] stringy , char[
+//
+// c
+007
+] u128
+, tag u8x `line1
+line2` ,  uint8 u128 , }
+")).
+Eval vm_compute in ("<<<M60>>>" ++ check (runes_of_ascii "root packet _x
+{ uint32 trueish @calculatedFrom( ""1"" ) `crlf
+line`
+,  }
+    //
+    packet	Header { repeat u64
+stringy `// not a comment` , float32  msg_type ,}
+")).
+Eval vm_compute in ("<<<M438>>>" ++ check (runes_of_ascii "packet uint8x
+{ match pack
+    as msg_type	{
+    0123456789 `it's`	float
+}
+,
+} packet //	t
+a1
+    { } options {packetx
+    = '\x00'	; u128= ""a	b""  ; }
+")).
+Eval vm_compute in ("<<<M456>>>" ++ check (runes_of_ascii "packet uint8x
+{ match pack
+    as msg_type	{
+    0123456789 :	float
+}
+,
+} } packet //	t
+a1
+    { } options {packetx
+    = '\x00'	; u128= ""a	b""  ; }
+")).
+Eval vm_compute in ("<<<M393>>>" ++ check (runes_of_ascii "uint8x packet
+{ match pack
+    as msg_type	{
+    0123456789 :	float
+}
+,
+} packet //	t
+a1
+    { } options {packetx
+    = '\x00'	; u128= ""a	b""  ; }
+")).
+Eval vm_compute in ("<<<M673>>>" ++ check (runes_of_ascii "// @lengthOf(
+packet i8i8 { u128 o , }
+options { MetaDataX = true;
+    BodyLength =""packet"" x_y_z float64 007
+crc //x
+= ""abc"" ;
+    msg_type =
+i16 }")).
+Eval vm_compute in ("<<<M394>>>" ++ check (runes_of_ascii "u32 uint8x
+{ match pack
+    as msg_type	{
+    0123456789 :	float
+}
+,
+} packet //	t
+a1
+    { } options {packetx
+    = '\x00'	; u128= ""a	b""  ; }
+")).
+Eval vm_compute in ("<<<M1720>>>" ++ check (runes_of_ascii "
+MetaData leftPad{ 
+chars
+	MetaDataX
+	,
+	}packet
+repeatCount
+
+{
+
+    char[
+    255 ] 
+uint8x
+`" ++ [233]%N ++ runes_of_ascii "` ,} 
+MetaData 
+    // c
+    pack{ As
+Foo,
+}
+")).
+Eval vm_compute in ("<<<M722>>>" ++ check (runes_of_ascii "// @lengthOf(
+packet i8i8 { u128 o , }
+options { MetaDataX = true;
+    BodyLength =x_y_z ""packet""= 007
+crc //x
+= ""abc"" ;
+    msg_type =
+i16 }")).
+Eval vm_compute in ("<<<M1611>>>" ++ check (runes_of_ascii "
+packet	A	{
+
+    match
+k	as
+    n  {[	""a"" ,  22
+	,
+    ""c c""  ,
+	4
+
+    ,  ""e""
+,  66  ,""g"" ,
+8 
+,	""i""
+,	10 ]	:
+B
+,  2 :
+C
+
+} ,  } ")).
+Eval vm_compute in ("<<<M1266>>>" ++ check (runes_of_ascii "  packet B
+    {
+u8 a
+	,
+    } 
+root  packet
+
+P {
+u8
+    K  ,
+	match
+    K as Body
+
+{
+1
+
+:  B,
+}  ,
+	u16	L@lengthOf(	Body
+
+) ,
+	}
+")).
+Eval vm_compute in ("<<<M1694>>>" ++ check (runes_of_ascii "packet A 
+{
+match k
+as
+
+n
+    {
+	[  ""a"",
+    ""bb""
+	, 
+007	, ""d""
 
 , 
-BodyLength 
-o
+""e"",66
 
-, stringy	u128`crlf
-line`
-	,}
-")).
-Eval vm_compute in ("<<<M1449>>>" ++ check (runes_of_ascii "packet A {
-    match k as n {
-        [
-            1, 22, ""c c"", 4, 5,
-            ""f"", 7, 8, ""i"", 10,
-            11
-        ] : B,
-        2 : C,
-    },
-}")).
-Eval vm_compute in ("<<<M552>>>" ++ check (runes_of_ascii "packet uint8x
-{ match pack
-    as msg_type	{
-    0123456789 :	float
-}
+,""g""	,  ""h""
+
 ,
-} packet //	t
-na" ++ [239]%N ++ runes_of_ascii "ve
-    { } options {packetx
-    = '\x00'	; u128= ""a	b""  ; }
-")).
-Eval vm_compute in ("<<<M538>>>" ++ check (runes_of_ascii "packet uint8x
-{ match pack
-    as msg_type	{
-    0123456789 :	float
-}
-,
-} packet //	t
-a1
-    { } options {packetx
-    = '\x00'	%; u128= ""a	b""  ; }
-")).
-Eval vm_compute in ("<<<M487>>>" ++ check (runes_of_ascii "packet uint8x
-{ match pack
-    as msg_type	{
-    0123456789 :	float
-}
-,
-} packet //	t
-a1
-    { } options packetx{
-    = '\x00'	; u128= ""a	b""  ; }
-")).
-Eval vm_compute in ("<<<M676>>>" ++ check (runes_of_ascii "// @lengthOf(
-packet i8i8 { u128 o , }
-options { MetaDataX = true;
-    BodyLength =""packet"" x_y_z x_y_z= 007
-crc //x
-= ""abc"" ;
-    msg_type =
-i16 }")).
-Eval vm_compute in ("<<<M665>>>" ++ check (runes_of_ascii "// @lengthOf(
-packet i8i8 { u128 o , }
-options { MetaDataX = true;
-    BodyLength =""packet"" x_y_z= 007
-crc //x
-= ""abc"" ; ;
-    msg_type =
-i16 }")).
-Eval vm_compute in ("<<<M675>>>" ++ check (runes_of_ascii "// @lengthOf(
-packet i8i8 { u128 o , }
-options { MetaDataX true =;
-    BodyLength =""packet"" x_y_z= 007
-crc //x
-= ""abc"" ;
-    msg_type =
-i16 }")).
-Eval vm_compute in ("<<<M1757>>>" ++ check (runes_of_ascii "MetaData
-	leftPad
-    {chars MetaDataX 
-,} packet
-repeatCount {
-	char[255] 
-uint8x 	 // c
-  `" ++ [233]%N ++ runes_of_ascii "`
-    , }MetaData pack 
-{
-
-    As	Foo ,
-}
-")).
-Eval vm_compute in ("<<<M719>>>" ++ check (runes_of_ascii "// @lengthOf(
-packet i8i8 { u128 o , }
-options { MetaDataX = true;
-     =""packet"" x_y_z= 007
-crc //x
-= ""abc"" ;
-    msg_type =
-i16 }")).
-Eval vm_compute in ("<<<M1464>>>" ++ check (runes_of_ascii "
-
-  packet 
-A
-
-    { match	k 
-as
-    n {  [
-""a""
-
-    , 
-22	,
-
-""c c"" , 4 ,""e""
-    ,
-66
-,
-""g"" ,
-
-8 
-]
-:	B
-2
+	9 ,	""j""
+	]	:B	2
 
 : 
-C} , }
+C }
 
-")).
-Eval vm_compute in ("<<<M1190>>>" ++ check (runes_of_ascii "MetaData leftPad { chars MetaDataX , } packet repeatCount { char[ 255 ] uint8x `" ++ [233]%N ++ runes_of_ascii "` , } MetaData pack { As Foo , }
-// c
-")).
-Eval vm_compute in ("<<<M1171>>>" ++ check (runes_of_ascii "MetaData leftPad { chars MetaDataX , } packet repeatCount { char[ 255 ] uint8x `" ++ [233]%N ++ runes_of_ascii "` // c
-, } MetaData pack { As Foo , }")).
-Eval vm_compute in ("<<<M1697>>>" ++ check (runes_of_ascii "// top
-root packet P {
-    // c3
-    hdr {
-        // c5
-        u8 a,
-        // c8
-    },// c10
-    u8 x,
-}
-// c14")).
-Eval vm_compute in ("<<<M910>>>" ++ check (runes_of_ascii "packet A {
-  match k as n {
-    [""a"", 22, ""c c"", 4, ""e"", 66, ""g"", 8, ""i"", 10, ""k"", 12] : B,
-    2 : C
-  },
+,
 }")).
-Eval vm_compute in ("<<<M898>>>" ++ check (runes_of_ascii "packet A {
-  match k as n {
-    [""a"", 22, ""c c"", 4, ""e"", 66, ""g"", 8, ""i"", 10, ""k""] : B
-    2 : C
-  },
-}")).
-Eval vm_compute in ("<<<M634>>>" ++ check (runes_of_ascii "
-packet
-    asx {matc@lengthOfh u128 as lengthOf
-{
-//	t
-// `tick` ""quote"" 'q'
-255 : x ,
-    } ,	}")).
-Eval vm_compute in ("<<<M600>>>" ++ check (runes_of_ascii "
-packet
-    asx {match u128 as lengthOf
-{
-//	t
-// `tick` ""quote"" 'q'
-255 packet x ,
-    } ,	}")).
-Eval vm_compute in ("<<<M588>>>" ++ check (runes_of_ascii "
-packet
-    asx {match u128 as lengthOf
-{ {
-//	t
-// `tick` ""quote"" 'q'
-255 : x ,
-    } ,	}")).
-Eval vm_compute in ("<<<M564>>>" ++ check (runes_of_ascii "
-packet
-    asx match{ u128 as lengthOf
-{
-//	t
-// `tick` ""quote"" 'q'
-255 : x ,
-    } ,	}")).
-Eval vm_compute in ("<<<M595>>>" ++ check (runes_of_ascii "
-packet
-    asx {match u128 as lengthOf
-{
-//	t
-// `tick` ""quote"" 'q'
-: : x ,
-    } ,	}")).
-Eval vm_compute in ("<<<M843>>>" ++ check (runes_of_ascii "packet A {
-  match k as n {
-    [1, ""bb"", 007, ""d"", 5, ""f"", 7] : B,
-    2 : C
-  },
-}")).
-Eval vm_compute in ("<<<M823>>>" ++ check (runes_of_ascii "packet A {
-  match k as n {
-    [""a"", ""bb"", 007, ""d"", ""e""] : B,
-    2 : C
-  },
-}")).
-Eval vm_compute in ("<<<M1282>>>" ++ check (runes_of_ascii "root 
-packet
-
-    P  { u16	a ,
-
-u32
-
-Sum	@calculatedFrom( ""CRC32""
-	) ,
-
-} ")).
-Eval vm_compute in ("<<<M1099>>>" ++ check (runes_of_ascii "packet A {
-    match k as n {
-        1 : B // c
-        , // d
+Eval vm_compute in ("<<<M1145>>>" ++ check (runes_of_ascii "MetaData leftPad // c
+{ chars MetaDataX , } packet repeatCount { char[ 255 ] uint8x `" ++ [233]%N ++ runes_of_ascii "` , } MetaData pack { As Foo , }")).
+Eval vm_compute in ("<<<M1177>>>" ++ check (runes_of_ascii "MetaData leftPad { chars MetaDataX , } packet repeatCount { char[ 255 ] uint8x `" ++ [233]%N ++ runes_of_ascii "` , } MetaData // c
+pack { As Foo , }")).
+Eval vm_compute in ("<<<M346>>>" ++ check (runes_of_ascii "MetaData chars {
+x_y_z
+/// triple
+/// triple
+x
+    `line1
+line2` ,_x A`// not a comment`,	} // `tick` ""quote"" 'q'")).
+Eval vm_compute in ("<<<M962>>>" ++ check (runes_of_ascii "packet A {
+    Inner {
+        u8 x `tab
+	x`,
+        Deep {
+            u8 y `tab
+	x`,
+        },
     },
 }")).
-Eval vm_compute in ("<<<M768>>>" ++ check (runes_of_ascii "char = char[] options char[] ] uint64 metadata match 1 zchar[ int16")).
-Eval vm_compute in ("<<<M365>>>" ++ check (runes_of_ascii "MetaData x_y_z { i8i8 u8x , string	uint8x
-    `crlf
-line` , }")).
-Eval vm_compute in ("<<<M1627>>>" ++ check (runes_of_ascii "MetaData M {
-    u8 x `tab
-    	x`,
-    T t `tab
-    	x`,
+Eval vm_compute in ("<<<M1732>>>" ++ check (runes_of_ascii "packet
+
+    A
+	{ match k
+as n
+
+{
+[
+""a"" 
+,22 ,
+
+""c c""
+,
+4  , ""e"" 
+,
+    66]:	B 2 
+:C
+    }
+    ,}
+")).
+Eval vm_compute in ("<<<M882>>>" ++ check (runes_of_ascii "packet A {
+  match k as n {
+    [1, ""bb"", 007, ""d"", 5, ""f"", 7, ""h"", 9, ""j""] : B,
+    2 : C
+  },
 }")).
-Eval vm_compute in ("<<<M627>>>" ++ check (runes_of_ascii "
+Eval vm_compute in ("<<<M558>>>" ++ check (runes_of_ascii "
+packet
+    asx asx {match u128 as lengthOf
+{
+//	t
+// `tick` ""quote"" 'q'
+255 : x ,
+    } ,	}")).
+Eval vm_compute in ("<<<M639>>>" ++ check (runes_of_ascii "
 packet
     asx {match u128 as lengthOf
 {
 //	t
-// `t")).
-Eval vm_compute in ("<<<M1218>>>" ++ check (runes_of_ascii "packet body { i32 f32a `{ , }` , } options {
-// c
+// `tick` ""quote"" 'q'
+255 : x ,
+    } ,	"" }")).
+Eval vm_compute in ("<<<M604>>>" ++ check (runes_of_ascii "
+packet
+    asx {match u128 as lengthOf
+{
+//	t
+// `tick` ""quote"" 'q'
+255 : , x
+    } ,	}")).
+Eval vm_compute in ("<<<M1507>>>" ++ check (runes_of_ascii "
+root	packet
+    P { u16	a
+
+,
+
+    u32 Sum @calculatedFrom(
+
+    ""CR\
+C32"" 
+)
+, }
+")).
+Eval vm_compute in ("<<<M116>>>" ++ check (runes_of_ascii "root packet Z9_ { repeat lengthOf
+pack , repeat
+    A {	repeatCount`doc` ,
+    },	}")).
+Eval vm_compute in ("<<<M824>>>" ++ check (runes_of_ascii "packet A {
+  match k as n {
+    [""a"", ""bb"", 007, ""d"", ""e""] : B
+    2 : C
+  },
 }")).
-Eval vm_compute in ("<<<M1125>>>" ++ check (runes_of_ascii "// top
-MetaData // c0
-u // c1
-{ // c2
-} // c3
+Eval vm_compute in ("<<<M810>>>" ++ check (runes_of_ascii "packet A {
+  match k as n {
+    [""a"", ""bb"", 007, ""d""] : B,
+    2 : C
+  },
+}")).
+Eval vm_compute in ("<<<M808>>>" ++ check (runes_of_ascii "packet A {
+  match k as n {
+    [1, 22, ""c c"", 4] : B,
+    2 : C
+  },
+}")).
+Eval vm_compute in ("<<<M1463>>>" ++ check (runes_of_ascii "MetaData x {
+    x Packet,
+    i32 lengthOf,// `tick` ""quote"" 'q'
+}")).
+Eval vm_compute in ("<<<M1712>>>" ++ check (runes_of_ascii "packet
+A
+{ match  k
+	as
+n
+
+{
+
+    [
+    1
+
+]
+: B 2 :	C
+
+},}
 ")).
-Eval vm_compute in ("<<<M31>>>" ++ check (runes_of_ascii "options {
-x=
-""{,}""
-matchKey=  true	; }
+Eval vm_compute in ("<<<M1624>>>" ++ check (runes_of_ascii "
+
+  MetaData 
+lengthOf	{Header
+
+    o`doc`  ,
+
+    }
 ")).
+Eval vm_compute in ("<<<M1552>>>" ++ check (runes_of_ascii "MetaData M {
+    u8 x `a
+    b`,
+    T t `a
+    b`,
+}")).
+Eval vm_compute in ("<<<M341>>>" ++ check (runes_of_ascii "options  { len = // " ++ [128512]%N ++ runes_of_ascii " emoji
+""packet"" int
+= ""abc""}")).
+Eval vm_compute in ("<<<M1445>>>" ++ check (runes_of_ascii "
+options { 
+x
+= ""{,}""matchKey
+=
+    true;
+}
+
+")).
+Eval vm_compute in ("<<<M772>>>" ++ check (runes_of_ascii "false int8 uint64 @lengthOf( , @leftPad :")).
 Eval vm_compute in ("<<<M1081>>>" ++ check (runes_of_ascii "options { a = 1; // a
  b = 2 // b
  }")).
-Eval vm_compute in ("<<<M1487>>>" ++ check (runes_of_ascii "packet A {
-    u8 x `d" ++ [5760]%N ++ runes_of_ascii "`,// c" ++ [5760]%N ++ runes_of_ascii "
+Eval vm_compute in ("<<<M1419>>>" ++ check (runes_of_ascii "options {
+    int = char[];
+}
+//")).
+Eval vm_compute in ("<<<M1038>>>" ++ check (runes_of_ascii "packet A {
+ u8 x `d" ++ [12]%N ++ runes_of_ascii "`, // c" ++ [12]%N ++ runes_of_ascii "
 }")).
-Eval vm_compute in ("<<<M1023>>>" ++ check (runes_of_ascii "packet A {
- u8 x `d" ++ [8239]%N ++ runes_of_ascii "`, // c" ++ [8239]%N ++ runes_of_ascii "
-}")).
-Eval vm_compute in ("<<<M1785>>>" ++ check (runes_of_ascii "
+Eval vm_compute in ("<<<M1910>>>" ++ check (runes_of_ascii "
 
   packet
 A  {
@@ -1109,18 +1099,20 @@ A  {
 
 // c" ++ [8232]%N ++ runes_of_ascii "
 ")).
-Eval vm_compute in ("<<<M1560>>>" ++ check (runes_of_ascii "root packet Packet {
+Eval vm_compute in ("<<<M1599>>>" ++ check (runes_of_ascii "// a
+// b
+packet A {
 }")).
-Eval vm_compute in ("<<<M1530>>>" ++ check (runes_of_ascii "  // only a comment
-")).
-Eval vm_compute in ("<<<M986>>>" ++ check (runes_of_ascii "packet A {
-}
-// c" ++ [160]%N)).
-Eval vm_compute in ("<<<M1225>>>" ++ check (runes_of_ascii "
-// c
-packet x { }")).
-Eval vm_compute in ("<<<M1435>>>" ++ check (runes_of_ascii "MetaData i64_ {
+Eval vm_compute in ("<<<M22>>>" ++ check (runes_of_ascii "packet leftPad {
 }")).
-Eval vm_compute in ("<<<M241>>>" ++ check (runes_of_ascii "/// triple
+Eval vm_compute in ("<<<M997>>>" ++ check (runes_of_ascii "// c" ++ [5760]%N ++ runes_of_ascii "
+packet A {
+}")).
+Eval vm_compute in ("<<<M172>>>" ++ check (runes_of_ascii "packet
+len { }
+
 ")).
-Eval vm_compute in ("<<<M1035>>>" ++ check (runes_of_ascii "// c" ++ [12]%N)).
+Eval vm_compute in ("<<<M11>>>" ++ check (runes_of_ascii "packet zchar { }")).
+Eval vm_compute in ("<<<M1477>>>" ++ check (runes_of_ascii "
+// " ++ [128512]%N ++ runes_of_ascii " emoji")).
+Eval vm_compute in ("<<<M1030>>>" ++ check (runes_of_ascii "// c" ++ [11]%N)).
